@@ -8,7 +8,10 @@
 (* the same dump key or a different number of dump keys is printed as          *)
 (*    <<"MISMATCH", line, expected>>                                           *)
 (* and the rest of that run is skipped (after the first deviation everything   *)
-(* downstream differs); validation goes on with the next run.  Events `panic`  *)
+(* downstream differs); validation goes on with the next run.  A reply event   *)
+(* whose field kd is not empty (DEL on a HyperLogLog key: open finding          *)
+(* C07-hll-write-cache) and that differs is printed as <<"KNOWN", line, first>> *)
+(* and neither recorded nor followed by a skip.  Events `panic`                 *)
 (* have no action: they are mismatches by construction.                        *)
 (* Accepted iff every line was consumed and no MISMATCH was printed.           *)
 EXTENDS ZDet, Json, IOUtils
@@ -45,7 +48,13 @@ TNext ==
           IF bad THEN UNCHANGED <<reply, dump, conflict, dumpn, bad, cnt>>
           ELSE CASE E.ev = "reply" ->
                       LET t == Trigger(reply, conflict, E.idx, E.r)
-                      IN IF t[2] THEN Mismatch(reply[E.idx])
+                      IN IF t[2] /\ E.kd # ""
+                         THEN \* a reply VALUE recorded as divergent on the unchanged tree (the driver
+                              \* marks the position structurally, the check matches it against the open
+                              \* finding): reported, not followed; everything else of the run stays strict
+                              /\ PrintT(<<"KNOWN", l, reply[E.idx]>>)
+                              /\ UNCHANGED <<reply, dump, conflict, dumpn, bad, cnt>>
+                         ELSE IF t[2] THEN Mismatch(reply[E.idx])
                          ELSE reply' = t[1] /\ UNCHANGED <<dump, conflict, dumpn, bad, cnt>>
                  [] E.ev = "dump" ->
                       LET t == Trigger(dump, conflict, E.k, E.v)
